@@ -13,6 +13,7 @@ are listed there by atomic number); nothing is imported from the library for the
 
     PYTHONPATH=/repo /venv/bin/python parse_checks.py [quick|thorough] [seed]      self-test
 """
+import zlib
 import json, os, re, sys, time
 
 sys.path.insert(0, os.path.dirname(os.path.abspath(__file__)))
@@ -648,6 +649,9 @@ def model_outcome(model, s):
     return ("error", ans[:200])
 
 
+NFA_SAMPLE = 12
+
+
 def antlr_outcome(s):
     """what the ANTLR lexer and the generated recogniser do with `s`, without the hand-written listener:
     (token types or None when the lexer reports an error, 'accept' | 'syntax' | 'lex' | 'other:<exception>')"""
@@ -697,6 +701,14 @@ def k12(run, model, s, kind):
         problem = "token types differ: ANTLR lexer %s, model lexer + literal table %s" % (itypes[:20], mtypes[:80])
     elif itypes is not None and mtypes in ("-", "?"):
         problem = "ANTLR lexer tokenises, model does not (%s)" % mtypes
+    if problem is None and (len(s) <= 24 or zlib.crc32(s.encode("latin-1")) % NFA_SAMPLE == 0):
+        # the automaton dumped from the lexer's serialized ATN (gen/AntlrLexer.v, simulated by AntlrLex.v) against the real lexer;
+        # the simulation is slow (unary state numbers), so short strings and a deterministic sample of the longer ones
+        run.count("K12_lexer_automaton_cases")
+        nfa = model.q("antlrlex " + hx(s))
+        want = "-" if itypes is None else "ok " + ",".join(map(str, itypes))
+        if nfa != want:
+            problem = "lexer automaton: ANTLR lexer %s, simulated ATN %s" % (want[:80], nfa[:80])
     if problem:
         c["diffs"].append({"what": problem, "case": {"s": s, "kind": kind}})
 
